@@ -110,8 +110,8 @@ class EvalMixin:
             if isinstance(v, SliceV):
                 et = v.et
                 if self.K(et) == 'struct':
-                    return (self.elemref(et)(v.arr, v.base + i), '*' + et)
-                loc = Loc('mem:' + self.skey(et), (v.arr, v.base + i), et)
+                    return (self.elemref(et)(v.arr, self.at(v.base, i)), '*' + et)
+                loc = Loc('mem:' + self.skey(et), (v.arr, self.at(v.base, i)), et)
                 return (self.load_loc(st, loc, facts=False), et)
             if isinstance(v, Loc) and v.arrlen is not None:
                 return (self.load_loc(st, Loc(v.key, v.idx + (i,), v.t), facts=False), v.t)
@@ -310,7 +310,7 @@ class EvalMixin:
         if name == 'mem':
             # mem(slice, i): byte i of slice
             v, t = self.ev(args[0], env); i, _ = self.ev(args[1], env)
-            return (st.rd('mem:' + self.skey(v.et), (v.arr, v.base + i)), v.et)
+            return (st.rd('mem:' + self.skey(v.et), (v.arr, self.at(v.base, i))), v.et)
         if name == 'sameslice':
             x, _ = self.ev(args[0], env); y, _ = self.ev(args[1], env)
             return (And(x.arr == y.arr, x.base == y.base, x.len == y.len, x.cap == y.cap), 'bool')
@@ -382,7 +382,7 @@ class EvalMixin:
             if isinstance(v, Loc) and v.arrlen is not None:
                 return [(v.key, v.idx + (i,), self.sort_of(v.t))]
             if isinstance(v, SliceV):
-                return [('mem:' + self.skey(v.et) + c, (v.arr, v.base + i), srt) for c, srt in self.leaves(v.et)]
+                return [('mem:' + self.skey(v.et) + c, (v.arr, self.at(v.base, i)), srt) for c, srt in self.leaves(v.et)]
             base = self.ev_lval(a[1], env)
             return [(k, idx + (i,), s) for k, idx, s in base]
         if a[0] == 'id' and a[1] in self.c.ghostglobals:
